@@ -79,6 +79,9 @@ func genC03Case(t *rapid.T) C03Case {
 		Issuer: rapid.SampledFrom([]string{"", "https://issuer-stated-in-the-request.example/metadata", stdSP(0).EntityID}).Draw(t, "storedissuer")}
 	spec := world.Spec{IdP: idp, SPs: []world.SPSpec{stdSP(0)}, Users: []world.UserSpec{u, stdUser(1)},
 		Apps: map[string]string{appID: genNonEmptyLegal(t, "audience", 5), "other-app": "https://other-audience.example"}, Requests: []world.RequestSpec{req}}
+	if rapid.IntRange(0, 3).Draw(t, "request-scope") == 0 {
+		spec.IdP.InterceptorNeutral, spec.RequireRequestScope = true, true
+	}
 	c := C03Case{Noise: rapid.IntRange(0, 1).Draw(t, "noise") == 0, Spec: spec, Host: rapid.SampledFrom(reqHosts).Draw(t, "host"), Method: rapid.SampledFrom([]string{"GET", "POST"}).Draw(t, "method")}
 	if idp.IssuerMode == "forwarded" && rapid.Bool().Draw(t, "fwd") {
 		c.Headers = [][2]string{{"Forwarded", "for=192.0.2.1;host=" + rapid.SampledFrom([]string{"public.idp.example", "\"proxy.example:444\""}).Draw(t, "fwdhost")}}
